@@ -254,3 +254,49 @@ theorem parse_fmt_parse (r r' : Bool) (s : Bytes) (p : Pfx) (h : parsePfx r s = 
     parsePfx r' (fmtPfx p) = .ok p := parsePfx_fmt r' p (parsePfx_wf r s p h)
 
 end Rpki.PfxText
+
+namespace Rpki.PfxText
+open Rpki.Prefix Rpki.ResText
+
+theorem mlpNew_fields (p : Pfx) (ml : Option Nat) (m : Mlp) (h : mlpNew p ml = .ok m) : m = ⟨p, ml⟩ := by
+  unfold mlpNew at h
+  cases ml with
+  | none => simp at h; exact h.symm
+  | some k =>
+    simp only at h
+    split at h
+    · cases h
+    · split at h
+      · cases h
+      · cases h; rfl
+
+/-- what `MaxLenPrefix::from_str` accepts is a value `MaxLenPrefix::new` returns for a well-formed prefix,
+and it is read back from its own text -/
+theorem parseMlp_sound (s : Bytes) (m : Mlp) (h : parseMlp s = .ok m) :
+    PfxWF m.pfx ∧ mlpNew m.pfx m.ml = .ok m ∧ parseMlp (fmtMlp m) = .ok m := by
+  have key : ∀ (p : Pfx) (ml : Option Nat), PfxWF p → mlpNew p ml = .ok m →
+      PfxWF m.pfx ∧ mlpNew m.pfx m.ml = .ok m ∧ parseMlp (fmtMlp m) = .ok m := by
+    intro p ml hp hm
+    have e := mlpNew_fields p ml m hm
+    subst e
+    exact ⟨hp, hm, parseMlp_fmt _ hp hm⟩
+  unfold parseMlp at h
+  split at h
+  · next dash _ =>
+    split at h
+    · cases h
+    · next p hp =>
+      split at h
+      · cases h
+      · next k _ =>
+        split at h
+        · next r hr => cases h; exact key p (some k) (parsePfx_wf false _ p hp) hr
+        · cases h
+  · split at h
+    · cases h
+    · next p hp =>
+      split at h
+      · next r hr => cases h; exact key p none (parsePfx_wf false _ p hp) hr
+      · cases h
+
+end Rpki.PfxText
